@@ -8,7 +8,9 @@
 From Coq Require Import List Arith PeanoNat Sorted.
 Import ListNotations.
 Require Import Verif.Base.Res Verif.Table.Model Verif.Table.MapSpec Verif.Table.Refine Verif.Table.Displaced.
-Require Import Verif.Table.NoPanic.
+Require Import Verif.Table.NoPanic Verif.Table.GenLink Verif.Table.DispLink.
+From Coq Require Import NArith.
+Require Verif.gen.TableFns.
 
 (** For EVERY sequence of stage_insert / stage_remove / merge / clear / read operations and every
     merge function that respects the MergeFn contract, starting from the empty table: if the run
@@ -53,22 +55,50 @@ Theorem c16_offsets_inv : forall c mf ops t sc,
 Proof. exact table_offsets_inv. Qed.
 Print Assumptions c16_offsets_inv.
 
-(** ... hence a timestamp-range subset is exact: whenever fast_subset answers (Eq/Lt/Le/Gt/Ge
-    against a constant on the sort column), the dense range it returns contains exactly the live
-    rows that satisfy the constraint, i.e. scanning it = scanning under the constraint. *)
-Theorem c16_fast_subset_exact : forall c mf ops t sc cn lo hi,
-  mf_ok c mf -> run c mf empty ops = Ok t ->
-  sortc c = Some sc -> fast_subset c t cn = Some (lo, hi) ->
+(** [binary_search_sort_val] AS REGENERATED from table/mod.rs (gen/TableFns.v), on every strictly
+    increasing offsets vector and for EVERY library binary search that meets the documented contract
+    of [binary_search_by_key]: it never panics (the [self.offsets[got]] index is in bounds) and returns
+    the first entry >= val: Ok (its row id, the next entry's row id or next_row) when the entry holds
+    val, else Err (its row id or next_row). *)
+Theorem c16_binary_search_sort_val : forall bs o n v,
+  bs_contract bs -> StronglySorted (fun a b => fst a < fst b /\ snd a < snd b) o ->
+  TableFns.binary_search_sort_val bs o n v = Ok (to_rres (bsearch o v n)).
+Proof. exact binary_search_sort_val_spec. Qed.
+Print Assumptions c16_binary_search_sort_val.
+
+(** the contract is inhabited, by two different executable searches (first / last match) *)
+Theorem c16_bs_contract_inhabited : bs_contract lin_bs /\ bs_contract last_bs.
+Proof. exact (conj lin_bs_contract last_bs_contract). Qed.
+Print Assumptions c16_bs_contract_inhabited.
+
+(** [fast_subset] AS REGENERATED from table/mod.rs (all six arms), in every reachable state and for
+    every contract-abiding library binary search: it never panics, answers exactly as the
+    specification, and hence independently of which binary search the library implements (the
+    executable model [fast_subset] runs it with [lin_bs]). *)
+Theorem c16_fast_subset_total : forall c mf ops t bs cn,
+  mf_ok c mf -> run c mf empty ops = Ok t -> bs_contract bs ->
+  fast_subset_with bs c t cn = Ok (fast_subset_spec c t cn) /\
+  fast_subset_with bs c t cn = fast_subset c t cn.
+Proof. exact table_fast_subset_total. Qed.
+Print Assumptions c16_fast_subset_total.
+
+(** ... hence a timestamp-range subset is exact: whenever the regenerated fast_subset answers
+    (Eq/Lt/Le/Gt/Ge against a constant on the sort column), the dense range it returns contains
+    exactly the live rows that satisfy the constraint, i.e. scanning it = scanning under the
+    constraint. *)
+Theorem c16_fast_subset_exact : forall c mf ops t sc bs cn lo hi,
+  mf_ok c mf -> run c mf empty ops = Ok t -> bs_contract bs ->
+  sortc c = Some sc -> fast_subset_with bs c t cn = Ok (Some (lo, hi)) ->
   (forall i r, In (i, r) (scan_all t) -> (lo <= i < hi <-> eval_c cn r = true)) /\
   scan_range t lo hi = scan_cs t [cn].
-Proof. exact table_fast_subset_exact. Qed.
+Proof. exact table_fast_subset_gen_exact. Qed.
 Print Assumptions c16_fast_subset_exact.
 
 (** fast_subset only ever answers constraints on the sort column *)
-Theorem c16_fast_subset_only_sort : forall c t cn lo hi, fast_subset c t cn = Some (lo, hi) ->
+Theorem c16_fast_subset_only_sort : forall bs c t cn lo hi, fast_subset_with bs c t cn = Ok (Some (lo, hi)) ->
   exists sc, sortc c = Some sc /\
     match cn with CEq _ _ => False | CEqC cl _ | CLt cl _ | CGt cl _ | CLe cl _ | CGe cl _ => cl = sc end.
-Proof. exact fast_subset_only_sort. Qed.
+Proof. exact fast_subset_with_only_sort. Qed.
 Print Assumptions c16_fast_subset_only_sort.
 
 (** Compaction: in every reachable state rehash succeeds (its expect cannot fire), changes no
@@ -82,7 +112,8 @@ Theorem c16_rehash_preserves : forall c mf ops t,
 Proof. exact table_rehash_preserves. Qed.
 Print Assumptions c16_rehash_preserves.
 
-(** merge = do_delete; do_insert; then rehash exactly when stale > max(16, n/2) *)
+(** merge = do_delete; do_insert; then rehash exactly when stale > max(16, n/2) -- the guard is
+    regenerated from SortedWritesTable::maybe_rehash (TableFns.maybe_rehash_skip) *)
 Theorem c16_merge_rehash_threshold : forall c mf t t',
   merge c mf t = Ok t' ->
   exists t2, do_insert c mf (do_delete c t) = Ok t2 /\
@@ -119,6 +150,50 @@ Theorem c16_displaced : forall ops d,
 Proof. exact displaced_answers_as_map. Qed.
 Print Assumptions c16_displaced.
 
+(** [DisplacedTable::timestamp_bounds] AS REGENERATED from uf/mod.rs (binary search, then the two
+    linear loops widening the match), on every timestamp-sorted vector, for EVERY contract-abiding
+    library binary search (which may report ANY of several equal timestamps) and enough fuel: no
+    panic (neither the [off - 1] underflow nor an index out of bounds), and the answer is
+    Ok(#{ts < val}, #{ts <= val}) when val occurs, else Err(#{ts < val}). *)
+Theorem c16_timestamp_bounds : forall l v bs fuel,
+  StronglySorted le (map snd l) -> bs_contract bs -> length l < fuel ->
+  TableFns.timestamp_bounds bs fuel l v = Ok (tb_spec l v).
+Proof. intros l v bs fuel HS. exact (timestamp_bounds_spec l v HS bs fuel). Qed.
+Print Assumptions c16_timestamp_bounds.
+
+(** [DisplacedTable::fast_subset] AS REGENERATED from uf/mod.rs, in every reachable state of the
+    DisplacedTable and for every contract-abiding library binary search: it never panics, equals
+    the specification (hence is independent of the library's tie-break; the executable model [dfast]
+    runs it with [lin_bs]), and the dense range it returns for a constraint on an existing column
+    holds EXACTLY the rows (displaced id, canonical id, timestamp) that satisfy the constraint. *)
+Theorem c16_displaced_fast_subset_exact : forall ops d bs cn,
+  drun dempty ops = Ok d -> bs_contract bs ->
+  dfast_with bs d cn = Ok (dfast_spec d cn) /\
+  dfast_with bs d cn = dfast d cn /\
+  (cn_cols_ok cn -> forall lo hi, dfast_spec d cn = Some (lo, hi) ->
+     forall i k ts canon, nth_error (disp d) i = Some (k, ts) ->
+       (lo <= i < hi <-> eval_c cn [k; canon; ts] = true)).
+Proof. exact displaced_fast_subset_exact. Qed.
+Print Assumptions c16_displaced_fast_subset_exact.
+
+(** the timestamps of a DisplacedTable are sorted in every reachable state *)
+Theorem c16_displaced_sorted : forall ops d, drun dempty ops = Ok d -> StronglySorted le (map snd (disp d)).
+Proof. intros ops d H. exact (drun_sorted ops dempty d (SSorted_nil le) H). Qed.
+Print Assumptions c16_displaced_sorted.
+
+(** the strategy thresholds of table/rebuild.rs AS REGENERATED ([incremental_rebuild], and
+    [do_rebuild]'s use of it): incremental iff the rebuilder has a hint column, the table has more
+    than 10000 physical rows and (8192 in the parallel case, else 8) * |recent uf updates| <= rows *)
+Theorem c16_incremental_rebuild_threshold : forall hint u n par,
+  TableFns.do_rebuild_incremental hint u n par = true <->
+  hint = true /\ (10000 < n /\ u * (if par then 8192 else 8) <= n)%N.
+Proof.
+  intros hint u n par. unfold TableFns.do_rebuild_incremental, TableFns.incremental_rebuild.
+  destruct hint; [|split; [discriminate|intros (H & _); discriminate]].
+  destruct par; rewrite Bool.andb_true_iff, N.ltb_lt, N.leb_le; tauto.
+Qed.
+Print Assumptions c16_incremental_rebuild_threshold.
+
 (** the observing run evaluated by the correspondence check is built from the proved [step] and
     the reads the theorems above are about *)
 Theorem c16_run_obs_step : forall c mf t o tl t', step c mf t o = Ok t' ->
@@ -139,6 +214,14 @@ Example c16_example_rehash :
               (map (fun v => OIns [1; v]) (seq 0 18) ++ [OMerge]) = Ok t
     /\ rows t = [Some [1; 17]] /\ gen t = 1 /\ stale t = 0 /\ hash t = [0].
 Proof. eexists. vm_compute. repeat split. Qed.
+
+(** the two library-search instances really differ (duplicates), the regenerated code does not *)
+Example c16_example_tb :
+  lin_bs [3; 5; 5; 5; 9] 5 = ROk 1 /\ last_bs [3; 5; 5; 5; 9] 5 = ROk 3 /\
+  TableFns.timestamp_bounds lin_bs 6 [(1, 3); (2, 5); (3, 5); (4, 5); (6, 9)] 5 = Ok (ROk (1, 4)) /\
+  TableFns.timestamp_bounds last_bs 6 [(1, 3); (2, 5); (3, 5); (4, 5); (6, 9)] 5 = Ok (ROk (1, 4)) /\
+  TableFns.timestamp_bounds last_bs 6 [(1, 3); (2, 5); (3, 5); (4, 5); (6, 9)] 7 = Ok (RErr 4).
+Proof. vm_compute. repeat split. Qed.
 
 (** the replay of finding F8, on the repaired model: after clear the old key is absent *)
 Example c16_example_f8 :
